@@ -30,6 +30,8 @@ func (c *recConn) Close() error {
 }
 
 // opConnMgr drives the REAL connection manager with scripted callbacks and records what it does (C18, direction B).
+var settleLimit = 30 * time.Second
+
 func opConnMgr() error {
 	seed := envInt("VERIF_SEED", 1)
 	nsc := int(envInt("VERIF_SCENARIOS", 20))
@@ -185,17 +187,26 @@ func opConnMgr() error {
 			mu.Unlock()
 		}
 		settle := func() int {
-			// wait until nothing has been logged for a while (dials are millisecond-fast), at most 3 s
+			// a quiescent point: the manager is at its target and nothing has been logged for a while (dials and retries
+			// are millisecond-fast).  Slow is not stuck: on a busy machine a retry timer may fire late, so "below the
+			// target" is only believed after 30 s - a manager that has lost a slot does not come back by then either.
+			t0 := time.Now()
 			last, lastN := time.Now(), -1
-			for time.Since(last) < 60*time.Millisecond {
+			for {
 				time.Sleep(5 * time.Millisecond)
 				mu.Lock()
 				n := stats["dials"] + stats["connected"] + stats["bans"]
+				atTarget := len(open) >= target
 				mu.Unlock()
 				if n != lastN {
 					lastN, last = n, time.Now()
 				}
-				if time.Since(last) > 3*time.Second {
+				if atTarget && time.Since(last) >= 60*time.Millisecond {
+					break
+				}
+				if time.Since(t0) > settleLimit {
+					// believed once, after the full wait; the later scenarios of this run need not wait that long again
+					settleLimit = 2 * time.Second
 					break
 				}
 			}
